@@ -1124,8 +1124,22 @@ fn run_split<F: FieldApi>(tr: &mut Trace, rng: &mut Rng, plan: &Plan) {
     for x in [0u32, 1, 2, 3] { ks.push(BigUint::from(x)); ks.push(&q - x - 1u32); }
     ks.push(&q / 2u32); ks.push(&q / 2u32 + 1u32); ks.push(&q / 3u32); ks.push(&q / 3u32 + 1u32);
     ks.push(q.sqrt()); ks.push(q.sqrt() + 1u32); ks.push(&q - q.sqrt());
-    for s in (0..q.bits() as usize).step_by(7) { ks.push((&one << s) % &q); ks.push(&q - (&one << s) % &q); }
+    for s in 0..(q.bits() as usize) { ks.push((&one << s) % &q); ks.push(&q - (&one << s) % &q); }
     let inv = |x: &BigUint| x.modpow(&(&q - 2u32), &q);
+    // exact powers of two (and neighbours) over / under small odd integers, both signs:
+    // reconstructions with a coordinate of magnitude exactly 2^63, 2^64, 2^127, 2^128
+    for j in [62usize, 63, 64, 65, 126, 127, 128, 129] {
+        for d in [0i32, -1, 1] {
+            let t = if d < 0 { (&one << j) - 1u32 } else { (&one << j) + (d as u32) };
+            for m in [1u32, 3, 5, 7, 9, 255, 65537] {
+                let mm = BigUint::from(m);
+                let k1 = (&t * inv(&mm)) % &q;          // 2^j / m
+                let k2 = (&mm * inv(&(&t % &q))) % &q;  // m / 2^j
+                ks.push((&q - &k1) % &q); ks.push(k1);
+                ks.push((&q - &k2) % &q); ks.push(k2);
+            }
+        }
+    }
     // fraction-shaped scalars k = c0/c1 for magnitude classes of (c0, c1)
     let classes: Vec<usize> = vec![1, 2, 32, 63, 64, 65, half_bits - 2, half_bits - 1, half_bits,
                                    half_bits + 1, half_bits + 2];
